@@ -40,8 +40,9 @@ SPEC = {
     "level_note": "Bounds: 2 validators, 2 competing block hashes, one slot, one new vote against an arbitrary admissible held set (a one-step argument: the held set is exactly what earlier admitted votes can have stored). BLS signing is stubbed to an opaque token (signatures are validated before the pool, C09); std BTreeMap in slot_state.rs replaced by a bounded array map under Kani. The slot-window bounds of PoolImpl::add_vote (async, tokio channel) are outside. Trusts Kani, CBMC, CaDiCaL.",
     # registered harnesses need the slot-state overlay only; the pool-level harnesses (kani_c04_pool.rs, not registered)
     # are built with "overlays": PC.OVERLAYS + [...c04_pool...], "redirects": PC.REDIRECTS (harness/pool_common.py)
-    "overlays": [COLL, FIX, {"src": "C04/kani_c04.rs", "dest": "src/consensus/pool/slot_state/kani_c04.rs", "decl_in": SS, "decl": "mod kani_c04;"}],
-    "redirects": SLOT_STATE_REDIRECTS,
+    "overlays": PC.OVERLAYS + [{"src": "C04/kani_c04.rs", "dest": "src/consensus/pool/slot_state/kani_c04.rs", "decl_in": SS, "decl": "pub(crate) mod kani_c04;"},
+                               {"src": "C04/kani_c04_gate.rs", "dest": "src/consensus/pool/kani_c04_gate.rs", "decl_in": POOL, "decl": "mod kani_c04_gate;"}],
+    "redirects": PC.REDIRECTS,
     "coll_cap": 3,
     "functions": ["consensus::pool::slot_state::SlotState::{new,check_slashable_offence,should_ignore_vote,add_vote,count_notar_stake,count_notar_fallback_stake,count_skip_stake,count_finalize_stake}"],
     "bounds": "2 validators (stakes 1 and 9), 2 block hashes, one slot; held votes of both validators symbolic; new vote kind fixed per harness, hash symbolic",
@@ -52,6 +53,11 @@ SPEC = {
     "harnesses": (
         [{"name": f"c04_admit_{k}", "path": MOD, "tiers": Q, "role": f"admission verdict/{k}", "stubs": ["crypto::aggsig::SecretKey::sign"], "covers": 3,
           "functions": ["SlotState::check_slashable_offence", "SlotState::should_ignore_vote"], "bounds": "held votes of 2 validators symbolic, new vote hash symbolic"} for k in KINDS]
+        + [{"name": f"c04_gate_{k}", "path": "consensus::pool::kani_c04_gate", "tiers": Q, "role": f"pool admission gate/{k}", "covers": 4 if k in ("notar", "nfallback", "skip") else 3,
+            "stubs": ["crypto::aggsig::SecretKey::sign", "consensus::pool::slot_state::SlotState::add_vote"], "timeout": {"quick": 600, "thorough": 1500}, "mem_gb": 12,
+            "functions": ["PoolImpl::add_vote (up to the hand-over to SlotState::add_vote)", "PoolImpl::{slot_state,first_unpruned_slot,finalized_slot}", "SlotState::check_slashable_offence", "SlotState::should_ignore_vote", "ValidatedVote::into_vote"],
+            "bounds": "fresh pool, 2 validators (stakes 1 and 9), slot 5; held votes of the voter symbolic (admissible sets), new vote hash symbolic; SlotState::add_vote (counting) replaced by a recording stub"} for k in KINDS]
+        + ([{"name": "c04_gx_probe", "path": "consensus::pool::kani_c04_gate", "tiers": Q, "role": "probe", "stubs": [], "covers": None, "mem_gb": 30, "timeout": 1800, "cbmc_args": PC.CBMC + ["--slice-formula"], "functions": [], "bounds": ""}] if os.environ.get("VERIF_EXPERIMENTAL") else [])
         + [{"name": f"c04_count_{k}", "path": MOD, "tiers": [], "role": f"counted once/{k}", "stubs": ["crypto::aggsig::SecretKey::sign"], "covers": 1,
             "functions": ["SlotState::add_vote", "SlotState::count_*_stake", "SlotState::check_slashable_offence", "SlotState::should_ignore_vote"], "bounds": "fresh slot state, one vote with symbolic hash, stakes 1/9"} for k in KINDS]
     ),
